@@ -317,6 +317,12 @@ impl OW {
         sink.stat("hup");
         sink.line(&format!("hup {k}"), &shown);
     }
+    pub fn clone_weak(&mut self, sink: &mut Sink, k: usize) {
+        let c = match self.weaks[k].as_ref().unwrap() { WeakK::S(w) => WeakK::S(w.clone()), WeakK::A(w) => WeakK::A(w.clone()) };
+        self.weaks.push(Some(c));
+        sink.stat("hclonew");
+        sink.line(&format!("hclonew {k}"), &(self.weaks.len() - 1).to_string());
+    }
     pub fn drop_weak(&mut self, sink: &mut Sink, k: usize) {
         self.weaks[k] = None;
         sink.line(&format!("hdropw {k}"), "ok");
@@ -352,7 +358,7 @@ impl OW {
 
 #[derive(Clone, Debug)]
 enum A { W(WOp, bool), Sub(bool), Poll(usize), PollT(usize), Next(usize), Get(usize), Reset(usize), SClone(usize, bool), SDrop(usize),
-         HClone, HDrop(usize), Down, Up(usize), DropW(usize), Into, Counts, HGet }
+         HClone, HDrop(usize), Down, Up(usize), DropW(usize), CloneW(usize), Into, Counts, HGet }
 
 fn apply(w: &mut OW, sink: &mut Sink, a: &A) -> bool {
     let owners = w.live_owners();
@@ -374,6 +380,7 @@ fn apply(w: &mut OW, sink: &mut Sink, a: &A) -> bool {
         A::Down => { let Some(h) = h0 else { return false }; if w.is_unique() || weaks.len() >= 2 { return false; } w.downgrade(sink, h) }
         A::Up(k) => { if !weaks.contains(k) || owners.len() >= 3 { return false; } w.upgrade(sink, *k) }
         A::DropW(k) => { if !weaks.contains(k) { return false; } w.drop_weak(sink, *k) }
+        A::CloneW(k) => { if !weaks.contains(k) || weaks.len() >= 3 { return false; } w.clone_weak(sink, *k) }
         A::Into => { if !w.is_unique() { return false; } w.into_shared(sink) }
         A::Counts => { let Some(h) = h0 else { return false }; w.counts(sink, h) }
         A::HGet => { let Some(h) = h0 else { return false }; w.owner_get(sink, h) }
@@ -390,7 +397,7 @@ fn alphabet(full: bool) -> Vec<A> {
     ];
     if full {
         v.extend([A::W(WOp::Take, false), A::W(WOp::Upd(1), false), A::W(WOp::Set(1), true), A::W(WOp::UpdIf(0, false), true), A::W(WOp::Sne(9), true),
-                  A::Get(0), A::Poll(2), A::Next(1), A::Reset(1), A::SDrop(1), A::DropW(0), A::Counts, A::HGet]);
+                  A::Get(0), A::Poll(2), A::Next(1), A::Reset(1), A::SDrop(1), A::DropW(0), A::CloneW(0), A::Up(1), A::Counts, A::HGet]);
     }
     v
 }
@@ -466,7 +473,7 @@ pub fn run(args: &Args, sink: &mut Sink, asyncf: bool) {
                 11 => A::Sub(r.chance(1, 3)),
                 12..=15 => A::Poll(i), 16 => A::PollT(i),
                 17 => A::Next(i), 18 => A::Get(i), 19 => A::Reset(i), 20 => A::SClone(i, r.chance(1, 2)), 21 => A::SDrop(i),
-                22 => A::HClone, 23 => A::HDrop(r.below(3)), 24 => A::Down, 25 => A::Up(r.below(2)), 26 => A::DropW(r.below(2)),
+                22 => A::HClone, 23 => A::HDrop(r.below(3)), 24 => A::Down, 25 => A::Up(r.below(3)), 26 => if r.chance(1, 2) { A::DropW(r.below(3)) } else { A::CloneW(r.below(2)) },
                 27 => A::Into, 28 => A::Counts, _ => A::HGet,
             }
         }).collect();
